@@ -6,6 +6,7 @@ import (
 	"strings"
 
 	"github.com/risor-io/risor/compiler"
+	modstrings "github.com/risor-io/risor/modules/strings"
 	"github.com/risor-io/risor/object"
 	"github.com/risor-io/risor/vm"
 
@@ -26,6 +27,7 @@ var plainKinds = map[string]string{
 	"g":   "cnt := 0\nfunc bump() { cnt = cnt + 1\n return cnt }\nbump()\nbump() * 10 + cnt",
 	"g2":  "acc := [0]\nfunc push(v) { acc.append(v)\n return len(acc) }\npush(1)\n[push(2), acc]",
 	"in":  "func h() { return mode * 2 }\n[h(), mode]",
+	"imp": "import strings\nstrings.to_upper(\"ab\")",
 	"clo": "func mk() { c := mode\n return func() { c = c + 1\n return c } }\nk := mk()\nk()\n[k(), mode]",
 }
 
@@ -63,7 +65,7 @@ type plainWorld struct {
 }
 
 func newPlainWorld() (*plainWorld, string) {
-	w := &plainWorld{env: rt.NewEnv(map[string]any{"mode": 0}), shared: map[string]*compiler.Code{}}
+	w := &plainWorld{env: rt.NewEnv(map[string]any{"mode": 0, "strings": modstrings.Module()}), shared: map[string]*compiler.Code{}}
 	for _, k := range plainAlphabetKinds(true) {
 		c, o := w.env.Compile(plainSource(k))
 		if c == nil {
@@ -75,7 +77,7 @@ func newPlainWorld() (*plainWorld, string) {
 }
 
 func plainAlphabetKinds(all bool) []string {
-	ks := []string{"a", "g", "g2", "in", "clo", "deff", "err0", "err2", "panic"}
+	ks := []string{"a", "g", "g2", "in", "imp", "clo", "deff", "err0", "err2", "panic"}
 	if all {
 		ks = append(ks, "b", "overflow")
 	}
